@@ -340,13 +340,14 @@ fn rem_interval(a: &Part, b: &Part, at: u32, n: u32) -> Option<(Part, Part)> {
 }
 
 /// C08: references concerning `edited` follow their cells when `n` rows/columns are inserted at `at`.
-/// `bounded = false` is the known defect C08-insert-grid-overflow (no grid limit at all).
-pub fn shift_insert(e: &E, self_sheet: &str, edited: &str, axis: Axis, at: u32, n: u32, bounded: bool) -> E {
+/// A cell (or the start of a range) pushed beyond XFD / 1048576 no longer exists: `#REF!`; a range that
+/// still starts on the grid is cut off at the edge.
+pub fn shift_insert(e: &E, self_sheet: &str, edited: &str, axis: Axis, at: u32, n: u32) -> E {
     map_refs(e, &|r: &Rf| {
         if !concerns(r, self_sheet, edited) || n == 0 {
             return E::Ref(r.clone());
         }
-        let (mc, mr) = if bounded { (MAX_COL, MAX_ROW) } else { (i64::MAX, i64::MAX) };
+        let (mc, mr) = (MAX_COL, MAX_ROW);
         let area = match (&r.area, axis) {
             (Area::Cell(a, b), Axis::Col) => ins_point(a, at, n, mc).map(|a| Area::Cell(a, b.clone())),
             (Area::Cell(a, b), Axis::Row) => ins_point(b, at, n, mr).map(|b| Area::Cell(a.clone(), b)),
